@@ -290,6 +290,7 @@ theorem profActInv_step (H : IdFn) {g : Graph} (hi : ProfActInv g) (u : Upd) : P
           split
           · exact profActInv_sendPolicyUpdate H h2 _
           · exact h2
+  | passthru c key v => exact profActInv_frame hi (active_emit g _) (sameProf_emit g _)
   | other => exact hi
 
 theorem profActInv_flush {g : Graph} (hi : ProfActInv g) : ProfActInv g.flush.1 := by
